@@ -39,6 +39,8 @@ def exact_parts(labels, preds):
 def check_one(opf_accuracy, labels, preds):
     K, x, A = exact_parts(labels, preds)
     a_fl = float(opf_accuracy(np.asarray(labels), np.asarray(preds)))
+    if a_fl != a_fl or a_fl in (float("inf"), float("-inf")):
+        return ["opf_accuracy returned %r, the exact value is %s" % (a_fl, A)], Fraction(0)
     got = Fraction(a_fl)
     bound = ((1 + U) ** (K + 4) - 1) * x + U * A
     out = []
